@@ -276,6 +276,9 @@ enum Ev {
     LateConfirm,
     /// three fifths of the confirm timeout pass
     HalfWait,
+    /// a fragment whose header does not parse as a request (unknown function code): it is
+    /// answered with an error indication and, like any other request, ends a series
+    Garbage,
 }
 
 struct Series {
@@ -506,6 +509,13 @@ impl Scenario for C11 {
                         s.dead = true;
                     }
                 }
+                Ev::Garbage => {
+                    last_seq = (last_seq + 1) & 0x0F;
+                    sent = Some(app::request(last_seq, 0x70, &[]));
+                    if let Some(s) = &mut series {
+                        s.dead = true;
+                    }
+                }
                 Ev::Other => {
                     last_seq = (last_seq + 1) & 0x0F;
                     sent = Some(app::request(last_seq, fc::DELAY_MEASURE, &[]));
@@ -572,11 +582,13 @@ impl Scenario for C11 {
 
             // the series grammar
             let mut v: Option<Violation> = None;
+            let mut other_answered = false;
             for r in step.resps() {
                 if r.uns() {
                     continue;
                 }
-                if matches!(ev, Ev::Other) && r.fir() && r.seq() == last_seq {
+                if matches!(ev, Ev::Other | Ev::Garbage) && r.fir() && r.seq() == last_seq {
+                    other_answered = true;
                     continue; // the answer to the other request
                 }
                 let Some(s) = &mut series else {
@@ -673,6 +685,9 @@ impl Scenario for C11 {
                     }
                 }
             }
+            if v.is_none() && matches!(ev, Ev::Other | Ev::Garbage) && !other_answered {
+                v = Some(Violation::new("C11.G10", "request-that-ends-the-series-not-answered", format!("{ev:?} with sequence {last_seq} got no response")));
+            }
             if v.is_none() {
                 // a READ delivered from idle must have produced its first fragment
                 if let (Ev::Read(_), Some(s)) = (ev, &series) {
@@ -726,11 +741,12 @@ fn scenarios(tier: &str) -> Vec<C11> {
             Ev::Reconnect,
             Ev::LateConfirm,
             Ev::HalfWait,
+            Ev::Garbage,
         ]);
         C11 { name: format!("{db:?}-tx{tx}-d{depth}"), db, tx, depth, alphabet }
     };
     let timing = |db: Db, tx: usize, depth: usize| {
-        let alphabet = vec![Ev::Read(0), Ev::SolConfirm(true), Ev::SolConfirm(false), Ev::HalfWait, Ev::Timeout, Ev::UpdIn];
+        let alphabet = vec![Ev::Read(0), Ev::SolConfirm(true), Ev::SolConfirm(false), Ev::HalfWait, Ev::Timeout, Ev::UpdIn, Ev::Garbage];
         C11 { name: format!("{db:?}-tx{tx}-timing-d{depth}"), db, tx, depth, alphabet }
     };
     let mut v = vec![timing(Db::D3, 249, 5), mk(Db::D3, 249, 4), mk(Db::D2, 249, 3), mk(Db::D4, 249, 3), mk(Db::D1, 2048, 3), mk(Db::D2, 2048, 3), mk(Db::D5, 249, 4)];
